@@ -6,7 +6,7 @@
 (* the second printed form is identical to the first, and both trees have  *)
 (* the same value in every environment of the box.                         *)
 (***************************************************************************)
-EXTENDS C03_Env, Json, IOUtils
+EXTENDS C06_Model, Json, IOUtils
 VARIABLES blk, off
 
 Recs == ndJsonDeserialize(IOEnv.TRACE_FILE)
@@ -16,35 +16,21 @@ Init == blk \in 0..(NB - 1) /\ off = 0
 Next == off < BS - 1 /\ off' = off + 1 /\ UNCHANGED blk
 Idx == blk * BS + off + 1
 
-\* flatten nested sums/products; constants compared by value (Python ==)
-RECURSIVE Norm(_)
-NormKids(e) == [i \in 1..Len(Kids(e)) |-> Norm(Kids(e)[i])]
-Splice(kind, ks) ==
-    LET RECURSIVE Go(_)
-        Go(i) == IF i > Len(ks) THEN << >>
-                 ELSE (IF ks[i].t = kind THEN ks[i].c ELSE << ks[i] >>) \o Go(i + 1)
-    IN Go(1)
-Norm(e) ==
-    IF e.t = "Const" THEN
-        (IF IsNum(e.v) THEN [t |-> "Const", v |-> [k |-> "num", n |-> e.v.n, d |-> e.v.d]] ELSE e)
-    ELSE IF e.t \in {"Sum", "Product"} THEN [t |-> e.t, c |-> Splice(e.t, NormKids(e))]
-    ELSE WithKids(e, NormKids(e))
+Clauses(rec) == RoundTripClauses(rec.e, rec.p, rec.s2 = rec.s1)
 
-ValueClause(e, e2) ==
-    \A i \in 1..Len(Envs) :
-        LET a == Eval(e, Envs[i]) b == Eval(e2, Envs[i]) IN
-        IsUnrep(a) \/ IsUnrep(b) \/ (IsErr(a) /\ IsErr(b)) \/ (IsNum(a) /\ IsNum(b) /\ ValEq(a, b))
-        \/ (~IsNum(a) /\ ~IsErr(a) /\ ~IsNum(b) /\ ~IsErr(b) /\ ValEq(a, b))
-
-Clauses(rec) ==
-    IF rec.p.r = "err" THEN << "parse-error" >>
-    ELSE IF rec.p.r # "ok" THEN << "SKIP" >>
-    ELSE (IF Norm(rec.p.e) # Norm(rec.e) THEN << "tree" >> ELSE << >>)
-      \o (IF rec.s2 # rec.s1 THEN << "text" >> ELSE << >>)
-      \o (IF ~ValueClause(rec.e, rec.p.e) THEN << "value" >> ELSE << >>)
+\* drift: the code's observable intermediates against the transcription's prediction
+Drift(rec) ==
+    LET toks == Stringify(rec.e) IN
+    IF ~Printable(toks) THEN << >>
+    ELSE (IF rec.toks # toks THEN << "printed-tokens" >> ELSE << >>)
+      \o (LET p == Parse(rec.toks) IN
+          IF rec.p.r = "ok" /\ p.ok THEN (IF p.e # rec.p.e THEN << "parsed-tree" >> ELSE << >>)
+          ELSE IF rec.p.r = "err" /\ ~p.ok THEN << >>
+          ELSE IF rec.p.r = "unser" THEN << >> ELSE << "parse-outcome" >>)
 
 Report ==
     Idx <= Len(Recs) =>
-      LET rec == Recs[Idx] cl == Clauses(rec) IN
-      cl = << >> \/ PrintT(ToJson([id |-> rec.id, cl |-> cl]))
+      LET rec == Recs[Idx] cl == Clauses(rec) dr == Drift(rec) IN
+      /\ (cl = << >> \/ PrintT(ToJson([id |-> rec.id, cl |-> cl])))
+      /\ (dr = << >> \/ PrintT(ToJson([id |-> rec.id, drift |-> dr])))
 =============================================================================
